@@ -294,11 +294,9 @@ theorem tr_endSyncUser : Tr c m0 (endSyncUser c) := by unfold endSyncUser; tr_au
 macro_rules | `(tactic| tr_leaf) => `(tactic| first | exact tr_baseNext _ _ _ | exact tr_endSyncUser _ _)
 theorem tr_nextSync : Tr c m0 (nextSync c) := by unfold nextSync; tr_auto
 theorem tr_nextElection : Tr c m0 (nextElection c) := by unfold nextElection; tr_auto
-theorem tr_nextConciliation : Tr c m0 (nextConciliation c) := by unfold nextConciliation; tr_auto
 theorem tr_nextEnding (f : SState) : Tr c m0 (nextEnding c f) := by unfold nextEnding; tr_auto
 
-/-! the only emission site of `failJobs`: behind the `isMaster` test of the two `_master_next` that call
-    `_WorkingState._master_next` -/
+/-! the only emission site of `failJobs`: behind the `isMaster` test of the `_master_next` of the three working states -/
 
 theorem runEq_isMaster (s : St) : (isMaster c).run s = .ok (decide (masterOf c s = some c.me), s) := by
   simp [isMaster, localModes, getModes, masterOf, StateT.run, Bind.bind, StateT.bind, Except.bind, MonadState.get, getThe,
@@ -344,6 +342,12 @@ theorem tr_nextDistribution : Tr c m0 (nextDistribution c) := by
 
 theorem tr_nextOperation : Tr c m0 (nextOperation c) := by
   unfold nextOperation
+  apply tr_masterBranch
+  · tr_auto
+  · tr_auto
+
+theorem tr_nextConciliation : Tr c m0 (nextConciliation c) := by
+  unfold nextConciliation
   apply tr_masterBranch
   · tr_auto
   · tr_auto
